@@ -13,7 +13,8 @@ MANIFEST = dict(
         text="The specification defines every message operation (mpt_message_read/length/argv, mpt_memchr/memrchr/memfcn/memrfcn/"
              "memstr/memrstr/memtok/memcpy, mpt_message_append, mpt_array_message, mpt_message_get) on the contiguous byte string "
              "alone and, as a second tier, on the fragment cursor the way the C code walks it.  TLC checks for every string over "
-             "three 4-symbol alphabets (NUL/space/quote/letter; quotes/backslash; comment/newline) up to length 4 (thorough 5) x "
+             "four 4-symbol alphabets (NUL/space/quote/letter; quotes/backslash; comment/newline; bytes 0x80/0xFF with search "
+             "tokens given as negative ints and beyond 0..255) up to length 4 (thorough 5) x "
              "every cut into <= 3 fragments (thorough also 4 at length 4) including empty ones x every call with every argument of the bounded sets that the "
              "fragment design answers exactly what the contiguous meaning says.  Every such case (string, cut, call, expected "
              "answer) is exported by TLC and replayed into the real functions on separately allocated fragments (answer class, "
@@ -29,12 +30,13 @@ MANIFEST = dict(
 
 CFG = {
     "quick": dict(
-        mc=[("MC_Message.cfg", 8), ("MC_Message_e.cfg", 3), ("MC_Message_c.cfg", 3)],
-        gen=[("Gen_Message.cfg", 2), ("Gen_Message_e.cfg", 1), ("Gen_Message_c.cfg", 1)],
+        mc=[("MC_Message.cfg", 8), ("MC_Message_e.cfg", 3), ("MC_Message_c.cfg", 3), ("MC_Message_h.cfg", 2)],
+        gen=[("Gen_Message.cfg", 2), ("Gen_Message_e.cfg", 1), ("Gen_Message_c.cfg", 1), ("Gen_Message_h.cfg", 1)],
         nmsg=150, maxlen=300, pool=6),
     "thorough": dict(
-        mc=[("MC_Message_t.cfg", 8), ("MC_Message_f.cfg", 4), ("MC_Message_et.cfg", 4), ("MC_Message_ct.cfg", 4)],
-        gen=[("Gen_Message_t.cfg", 8), ("Gen_Message_et.cfg", 3), ("Gen_Message_ct.cfg", 3)],
+        mc=[("MC_Message_t.cfg", 8), ("MC_Message_f.cfg", 4), ("MC_Message_et.cfg", 4), ("MC_Message_ct.cfg", 4),
+            ("MC_Message_ht.cfg", 4)],
+        gen=[("Gen_Message_t.cfg", 8), ("Gen_Message_et.cfg", 3), ("Gen_Message_ct.cfg", 3), ("Gen_Message_ht.cfg", 3)],
         nmsg=1500, maxlen=300, pool=8),
 }
 KEYS = ("ret", "val", "out", "content")
@@ -135,14 +137,14 @@ WHITE = [b" ", b" ", b"  ", b"\t", b"\n", b"\r\n", b" \v"]
 
 
 def rand_data(rng, maxlen):
-    style = rng.choice(["words", "words", "words", "binary", "runs", "csv", "comment"])
+    style = rng.choice(["words", "words", "words", "binary", "runs", "csv", "comment", "latin"])
     n = rng.choice([0, 1, 2, 3, rng.randrange(4, 40), rng.randrange(40, max(maxlen, 40) + 1)])
     n = min(n, maxlen)
     out = bytearray()
     if style == "binary":
         out += bytes(rng.randrange(256) for _ in range(n))
     elif style == "runs":
-        sym = [rng.choice([0, 32, 34, 39, 92, 97, 10, 35, 44]) for _ in range(3)]
+        sym = [rng.choice([0, 32, 34, 39, 92, 97, 10, 35, 44, 128, 255, 233]) for _ in range(3)]
         while len(out) < n:
             out += bytes([rng.choice(sym)]) * rng.randrange(1, 6)
     else:
@@ -151,6 +153,8 @@ def rand_data(rng, maxlen):
         while len(out) < n:
             r = rng.random()
             w = rng.choice(WORDS)
+            if style == "latin":
+                w = bytes(rng.choice([0xe9, 0xfc, 0x80, 0xff, 0xa0, 0x61, 0x7a]) for _ in range(rng.randrange(1, 6)))
             if r < 0.2:
                 q = rng.choice([b'"', b"'"])
                 w = q + w + rng.choice(WHITE) + rng.choice(WORDS) + (q if rng.random() < 0.85 else b"")
@@ -181,6 +185,17 @@ def some_byte(rng, data):
     return rng.choice([0, 1, 32, 34, 44, 97, 255, rng.randrange(256)])
 
 
+def some_token(rng, data):
+    """an int token the way C code passes one: the byte, the byte as signed char, or beyond a byte."""
+    b = some_byte(rng, data)
+    r = rng.random()
+    if b >= 128 and r < 0.5:
+        return b - 256
+    if r < 0.1:
+        return b + 256 * rng.choice([1, -2, 3])
+    return b
+
+
 def gen_traces(rng, nmsg, maxlen):
     """Call sequences only -- no expected values."""
     behs = []
@@ -209,18 +224,18 @@ def gen_traces(rng, nmsg, maxlen):
             elif op == "length":
                 arg = {"x": 0}
             elif op in ("argv", "arrmsg"):
-                arg = {"sep": rng.choice([0, 32, 32, 32, 9, 10, 1, 44, 59, 61, 97, 34, 200])}
+                arg = {"sep": rng.choice([0, 32, 32, 32, 9, 10, 1, 44, 59, 61, 97, 34, 200, 255, -1, -23, -128])}
             elif op in ("memchr", "memrchr"):
-                arg = {"b": some_byte(rng, data)}
+                arg = {"b": some_token(rng, data)}
             elif op in ("memfcn", "memrfcn"):
-                arg = {"cls": rng.choice(["space", "notspace", "quote", "zero"])}
+                arg = {"cls": rng.choice(["space", "notspace", "quote", "zero", "high"])}
             elif op in ("memstr", "memrstr"):
                 arg = {"set": [some_byte(rng, data) for _ in range(rng.choice([0, 1, 2, 3, 5]))]}
             elif op == "memtok":
-                tok = rng.choice([None, None, [9, 32, 10, 13, 11], [44, 59], [61], [], [97, 46]])
+                tok = rng.choice([None, None, [9, 32, 10, 13, 11], [44, 59], [61], [], [97, 46], [128, 255, 44], [233]])
                 arg = {"hastok": 0 if tok is None else 1, "tok": tok or [],
-                       "com": rng.choice([[], [], [35], [35, 33]]),
-                       "esc": rng.choice([[], [39, 34], [39, 34], [34]])}
+                       "com": rng.choice([[], [], [35], [35, 33], [255]]),
+                       "esc": rng.choice([[], [39, 34], [39, 34], [34], [128]])}
             elif op == "memcpy":
                 total = rng.choice([0, 1, est, est + 1, max(est - 1, 0), rng.randrange(est + 4), rng.randrange(est // 3 + 2)])
                 arg = {"n": rng.choice([-1, -1, 0, 1, total, est, max(total - 1, 0), total + 1, rng.randrange(est + 2)]),
